@@ -10,6 +10,7 @@ import (
 	"strings"
 	"sync"
 	"sync/atomic"
+	"time"
 
 	"github.com/samsarahq/thunder/batch"
 	"github.com/samsarahq/thunder/graphql"
@@ -207,6 +208,11 @@ func BuildSchema15(live *Live) *graphql.Schema {
 		}),
 	)
 
+	// the same object several times in one list (equal cache keys for its Expensive fields)
+	q.FieldFunc("twins", func() []*Obj {
+		p := &Obj{X: 7, Y: "t"}
+		return []*Obj{p, p, {X: 8, Y: "u"}, p}
+	})
 	// wide fan-out: n objects, each with expensive / batch / plain fields and further levels below
 	q.FieldFunc("many", func(args struct{ N int64 }) []*Obj {
 		n := args.N
@@ -223,6 +229,16 @@ func BuildSchema15(live *Live) *graphql.Schema {
 	o := s.Object("Obj", Obj{})
 	// next nests without end (the query bounds the depth): for hostile-but-small deep queries
 	o.FieldFunc("next", func(o *Obj) *Obj { return &Obj{X: o.X + 1, Y: o.Y, Depth: o.Depth + 1} })
+	// eslow: an Expensive field that takes a while (or until the request is cancelled): two resolutions on the
+	// same object share one reactive cache key, the second waits for the first
+	o.FieldFunc("eslow", func(ctx context.Context, o *Obj) (int64, error) {
+		select {
+		case <-ctx.Done():
+			return 0, ctx.Err()
+		case <-time.After(150 * time.Millisecond):
+			return o.X, nil
+		}
+	}, schemabuilder.Expensive)
 	o.FieldFunc("ex", func(o *Obj) *Obj { return &Obj{X: o.X, Y: o.Y + "e", Depth: o.Depth + 1} }, schemabuilder.Expensive)
 	o.FieldFunc("exn", func(o *Obj) int64 { return o.X }, schemabuilder.Expensive)
 	o.BatchFieldFunc("bself", func(in map[batch.Index]*Obj) (map[batch.Index]*Obj, error) {
